@@ -6,10 +6,12 @@ lean/TempestVerif/Gen/Kernel.lean with `ScT`-polymorphic Lean definitions of
   TPCNRunner._propose                     gammaShape d nu, gammaScale nu dot, sFromGamma g,
                                           tpcnMuCoef / tpcnDiffCoef / tpcnNoiseScale  (the three terms of the proposal)
   TPCNRunner._compute_acceptance_factor   tpcnLogFactor d nu dot dotp          ( -A + B )
-  BaseMCMCRunner.run                      acceptProb beta l lp factor, acceptDecision r alpha, stepOrder (statement order)
+  BaseMCMCRunner.run                      acceptProb beta l lp factor, alphaOutOfBounds alpha (`alpha[~in_bounds] = 0.0`),
+                                          acceptDecision r alpha, stepOrder (statement order incl. the bounds check)
   RWMRunner._propose / _compute_…         rwmUCoef, rwmNoiseScale, rwmLogFactor
   *_adapt_sigma                           tpcnAdapt / rwmAdapt sigma iter acc sigma0
-  the shape of the redraw loops           tpcnProposeShape / rwmProposeShape
+  statement shape of the `_propose`s      tpcnProposeShape / rwmProposeShape  (single draw + fold + return; the old
+                                          redraw-until-inside loop is still recognised and emitted as such)
 
 How: a tiny symbolic evaluator over a closed vocabulary.  Leaves are recognised by their exact source
 text (`self.degrees_of_freedom[self.assignments[k]]` is `nu`, ...), local names go through an environment
@@ -313,39 +315,64 @@ def _simple_assign(st):
 BC_ARGS = ["self.periodic", "self.reflective"]
 
 
+def _is_bc_call(c, pname):
+    return isinstance(c, ast.Call) and _dotted(c.func) == "apply_boundary_conditions" and not c.keywords \
+        and [_src(a) for a in c.args] == [pname] + BC_ARGS
+
+
 def _propose(fn, leaves, where):
-    """returns (Ev, proposal Lin, shape table)"""
+    """returns (Ev, proposal Lin, shape table).  Two statement shapes are recognised:
+         single draw  (current code):  [gamma,] draw, fold, ret           — bounds are checked by the caller
+         redraw loop  (old code):      [gamma,] loop, draw, fold, checkReturn
+       anything else is `Unavailable`."""
     ev = Ev(leaves, where)
     shape = []
-    prop = None
-    seen_loop = False
+    prop = pname = None
+    state = "pre"            # pre -> (loop: draw -> bc -> check -> done) | (bc -> ret -> done)
     for st in _body(fn):
         sa = _simple_assign(st)
-        if sa and not seen_loop:
-            before = ev.n_gamma
+        if state == "pre" and sa:
+            g0, z0 = ev.n_gamma, ev.n_randn
             val = ev.ev(sa[1])
-            if ev.n_gamma > before:
+            if ev.n_gamma > g0:
                 # the statement that draws the gamma variate defines the scale variable: s = f(g)
-                if not (isinstance(val, S) and val.fv == {"g"}):
+                if ev.n_randn > z0 or not (isinstance(val, S) and val.fv == {"g"}):
                     ev.fail(st, "the statement drawing the gamma variate is not a scalar function of that draw alone")
                 ev.s_of_g = val
                 val = S("s", {"s"})
                 shape.append("gamma")
+            if ev.n_randn > z0:
+                lin = Ev.lin(val)
+                if lin is None:
+                    ev.fail(st, "proposal is not a linear combination of the known vectors")
+                if ev.n_randn != 1:
+                    ev.fail(st, f"{ev.n_randn} normal draws per proposal (expected 1)")
+                prop, pname = lin, sa[0]
+                shape.append("draw")
+                state = "bc"
+                continue
             ev.env[sa[0]] = val
-            if ev.n_randn:
-                ev.fail(st, "normal draw outside the redraw loop")
             continue
-        if isinstance(st, ast.While) and not seen_loop:
-            seen_loop = True
+        if state == "bc" and sa and sa[0] == pname and _is_bc_call(sa[1], pname):
+            shape.append("fold")
+            state = "ret"
+            continue
+        if state == "bc" and isinstance(st, ast.Return) and st.value is not None and _is_bc_call(st.value, pname):
+            shape += ["fold", "ret"]
+            state = "done"
+            continue
+        if state == "ret" and isinstance(st, ast.Return) and st.value is not None and _src(st.value) == pname:
+            shape.append("ret")
+            state = "done"
+            continue
+        if state == "pre" and isinstance(st, ast.While):
             if not (isinstance(st.test, ast.Constant) and st.test.value is True) or st.orelse:
                 ev.fail(st, "loop is not `while True:`")
             shape.append("loop")
-            state = "draw"
+            lstate = "draw"
             for s2 in st.body:
                 sa2 = _simple_assign(s2)
-                if state == "draw" and sa2:
-                    if ev.n_gamma and "gamma" not in shape[:shape.index("loop")]:
-                        ev.fail(s2, "gamma draw inside the redraw loop")
+                if lstate == "draw" and sa2:
                     g0 = ev.n_gamma
                     val = ev.ev(sa2[1])
                     if ev.n_gamma > g0:
@@ -357,17 +384,13 @@ def _propose(fn, leaves, where):
                         ev.fail(s2, f"{ev.n_randn} normal draws per proposal (expected 1)")
                     prop, pname = lin, sa2[0]
                     shape.append("draw")
-                    state = "bc"
+                    lstate = "bc"
                     continue
-                if state == "bc" and sa2:
-                    c = sa2[1]
-                    if sa2[0] == pname and isinstance(c, ast.Call) and _dotted(c.func) == "apply_boundary_conditions" \
-                            and not c.keywords and [_src(a) for a in c.args] == [pname] + BC_ARGS:
-                        shape.append("fold")
-                        state = "check"
-                        continue
-                    ev.fail(s2, "expected `proposal = apply_boundary_conditions(proposal, self.periodic, self.reflective)`")
-                if state == "check" and isinstance(s2, ast.If) and not s2.orelse:
+                if lstate == "bc" and sa2 and sa2[0] == pname and _is_bc_call(sa2[1], pname):
+                    shape.append("fold")
+                    lstate = "check"
+                    continue
+                if lstate == "check" and isinstance(s2, ast.If) and not s2.orelse:
                     c = s2.test
                     ok = isinstance(c, ast.Call) and _dotted(c.func) == "check_bounds" and not c.keywords \
                         and [_src(a) for a in c.args] == [pname] + BC_ARGS
@@ -375,15 +398,16 @@ def _propose(fn, leaves, where):
                         and _src(s2.body[0].value) == pname
                     if ok:
                         shape.append("checkReturn")
-                        state = "done"
+                        lstate = "done"
                         continue
                 ev.fail(s2, "unrecognised statement in the redraw loop")
-            if state != "done":
+            if lstate != "done":
                 ev.fail(st, "redraw loop incomplete")
+            state = "done"
             continue
         ev.fail(st, "unrecognised statement")
-    if prop is None:
-        raise Unavailable(f"{where}: no redraw loop found")
+    if prop is None or state != "done":
+        raise Unavailable(f"{where}: no complete proposal (draw, fold, return) found")
     return ev, prop, shape
 
 
@@ -449,8 +473,8 @@ def _adapt(fn, where):
     return _need_fv(out, ["sigma", "iter", "acc", "sigma0"], where)
 
 
-STAGES = ["iter", "propose", "transform", "evaluate", "factor", "alpha", "uniform", "accept", "update", "adapt",
-          "progress", "converge"]
+STAGES = ["iter", "propose", "boundsCheck", "keepCurrent", "transform", "evaluate", "factor", "alpha", "zeroOutOfBounds",
+          "uniform", "accept", "update", "adapt", "progress", "converge"]
 
 
 def _run(fn):
@@ -468,6 +492,8 @@ def _run(fn):
     alpha_name = None
     accept = None
     alpha_final = None
+    ib_name = None
+    oob = None
     for st in loop.body:
         text = _src(st)
         sa = _simple_assign(st)
@@ -478,6 +504,18 @@ def _run(fn):
         elif isinstance(st, ast.For) and _src(st.iter) == "range(self.n_walkers)" and len(st.body) == 1 \
                 and _src(st.body[0]) == f"u_prime[{_src(st.target)}] = self._propose({_src(st.target)})" and not st.orelse:
             order.append("propose")
+        elif sa and ib_name is None and _src(sa[1]) in (
+                "np.atleast_1d(check_bounds(u_prime, self.periodic, self.reflective))",
+                "check_bounds(u_prime, self.periodic, self.reflective)"):
+            ib_name = sa[0]
+            order.append("boundsCheck")
+        elif ib_name is not None and text == f"u_prime[~{ib_name}] = self.u[~{ib_name}]":
+            order.append("keepCurrent")
+        elif ib_name is not None and alpha_name is not None and accept is None and isinstance(st, ast.Assign) \
+                and len(st.targets) == 1 and _src(st.targets[0]) == f"{alpha_name}[~{ib_name}]" \
+                and isinstance(st.value, ast.Constant) and oob is None:
+            oob = _lit(st.value.value)
+            order.append("zeroOutOfBounds")
         elif sa and sa[0] == "x_prime" and _src(sa[1]) == "np.array([self.prior_transform(u_p) for u_p in u_prime])":
             order.append("transform")
         elif text == "logl_prime, blobs_prime = self._evaluate_likelihood(x_prime)":
@@ -536,7 +574,8 @@ def _run(fn):
     _need_fv(alpha_final, ["beta", "l", "lp", "factor"], "acceptance probability")
     if accept.lean != f"(Sc.lt r {alpha_final.lean})":
         raise Unavailable(f"{where}: accept mask is not `u_rand < alpha`")
-    return order, alpha_final
+    # what alpha becomes for a walker whose proposal failed check_bounds: the assigned literal, or (no such statement) unchanged
+    return order, alpha_final, (oob.lean if oob is not None else "alpha")
 
 
 # ----------------------------------------------------------------------------- emission
@@ -559,12 +598,14 @@ def nanToZero (x : α) : α := if Sc.le x x then x else Sc.zero
 
 /-- statements of one step of `BaseMCMCRunner.run`, in source order -/
 inductive Stage
-  | iter | propose | transform | evaluate | factor | alpha | uniform | accept | update | adapt | progress | converge
+  | iter | propose | boundsCheck | keepCurrent | transform | evaluate | factor | alpha | zeroOutOfBounds | uniform | accept
+  | update | adapt | progress | converge
   deriving DecidableEq, Repr
 
-/-- statements of a `_propose`: a gamma draw, then the redraw loop (draw, fold, checkReturn) -/
+/-- statements of a `_propose`: [gamma draw,] normal draw, fold (`apply_boundary_conditions`), return — or, in the OLD
+    redraw shape, `loop` with draw, fold, `checkReturn` (`if check_bounds(...): return`) inside -/
 inductive PStage
-  | gamma | loop | draw | fold | checkReturn
+  | gamma | loop | draw | fold | checkReturn | ret
   deriving DecidableEq, Repr
 '''
 
@@ -634,11 +675,11 @@ def _emit(tree):
     rad = _adapt(_find_method(tree, "RWMRunner", "_adapt_sigma"), "RWMRunner._adapt_sigma")
 
     # ---- run
-    order, alpha = _run(_find_method(tree, "BaseMCMCRunner", "run"))
+    order, alpha, oob = _run(_find_method(tree, "BaseMCMCRunner", "run"))
 
     return dict(gammaShape=shape.lean, gammaScale=scale.lean, sFromGamma=sval.lean, tpcnMuCoef=co["mu"].lean,
                 tpcnDiffCoef=co["diffu"].lean, tpcnNoiseScale=co["Lz"].lean, tpcnLogFactor=factor.lean,
-                rwmUCoef=rco["u"].lean, rwmNoiseScale=rco["Lz"].lean, rwmLogFactor=rfactor.lean, acceptProb=alpha.lean,
+                rwmUCoef=rco["u"].lean, rwmNoiseScale=rco["Lz"].lean, rwmLogFactor=rfactor.lean, acceptProb=alpha.lean, alphaOutOfBounds=oob,
                 tpcnAdapt=tad.lean, rwmAdapt=rad.lean, stepOrder=order, tpcnProposeShape=tshape, rwmProposeShape=rshape)
 
 
@@ -659,12 +700,13 @@ REFERENCE = dict(
     rwmNoiseScale="sigma",
     rwmLogFactor="(Sc.ofNat 0)",
     acceptProb="(nanToZero (npMinimum (Sc.ofNat 1) (ScT.exp (Sc.add (Sc.mul beta (Sc.sub lp l)) factor))))",
+    alphaOutOfBounds="(Sc.ofNat 0)",
     tpcnAdapt=f"(Sc.min (Sc.max {_RAW} (Sc.ofNat 0)) (Sc.min sigma0 (Sc.lit 99 2)))",
     rwmAdapt=_RAW,
-    stepOrder=["iter", "propose", "transform", "evaluate", "factor", "alpha", "uniform", "accept", "update", "adapt",
-               "progress", "converge"],
-    tpcnProposeShape=["gamma", "loop", "draw", "fold", "checkReturn"],
-    rwmProposeShape=["loop", "draw", "fold", "checkReturn"],
+    stepOrder=["iter", "propose", "boundsCheck", "keepCurrent", "transform", "evaluate", "factor", "alpha", "zeroOutOfBounds",
+               "uniform", "accept", "update", "adapt", "progress", "converge"],
+    tpcnProposeShape=["gamma", "draw", "fold", "ret"],
+    rwmProposeShape=["draw", "fold", "ret"],
 )
 
 
@@ -683,6 +725,8 @@ def _render(v, note=""):
     out.append(_def("rwmLogFactor", [], v["rwmLogFactor"], "RWMRunner._compute_acceptance_factor"))
     out.append(_def("acceptProb", ["beta", "l", "lp", "factor"], v["acceptProb"],
                     "BaseMCMCRunner.run: acceptance probability (l: current logL, lp: proposed logL)"))
+    out.append(_def("alphaOutOfBounds", ["alpha"], v["alphaOutOfBounds"],
+                    "BaseMCMCRunner.run: what alpha becomes for a walker whose proposal failed check_bounds (`alpha[~in_bounds] = ...`)"))
     out.append("/-- BaseMCMCRunner.run: `mask_accept = u_rand < alpha` -/\ndef acceptDecision (r alpha : α) : Bool :=\n  Sc.lt r alpha\n")
     out.append(_def("tpcnAdapt", ["sigma", "iter", "acc", "sigma0"], v["tpcnAdapt"], "TPCNRunner._adapt_sigma: new sigma of the cluster"))
     out.append(_def("rwmAdapt", ["sigma", "iter", "acc", "sigma0"], v["rwmAdapt"], "RWMRunner._adapt_sigma: new sigma of the cluster"))
